@@ -14,6 +14,15 @@ def extra_files():
         from vlib import tlc
         SPEC_FILES = {"QueueCore.tla": open(os.path.join(tlc.SPEC, "queue", "QueueCore.tla")).read(),
                       "DequeCore.tla": open(os.path.join(tlc.SPEC, "deque", "DequeCore.tla")).read()}
+        if os.environ.get("X01_MASKSKIP") == "0":
+            # development aid: judge with the named choice MaskSkip = FALSE (the reading after
+            # fixes/distributor-input-filter-keeps-skip.diff) without editing the cfg files: the overriding copies are
+            # placed next to the spec by run_tlc.  When that fix is committed, set MaskSkip = FALSE in spec/chan/*.cfg.
+            import glob
+            for f in glob.glob(os.path.join(tlc.SPEC, "chan", "*.cfg")):
+                text = open(f).read()
+                if "MaskSkip = TRUE" in text:
+                    SPEC_FILES[os.path.basename(f)] = text.replace("MaskSkip = TRUE", "MaskSkip = FALSE")
     return SPEC_FILES
 
 
